@@ -3,7 +3,8 @@ from vp.runner import Ob, finding_open
 
 INFO = {
     "design_ref": "§4.7",
-    "functions": ["v2patterns._compile_pattern_re", "v2patterns._replace_pattern_parts", "v1patterns._compile_pattern_re",
+    "functions": ["v2patterns._compile_pattern_re", "v2patterns._replace_pattern_parts", "v2patterns.compile_pattern", "v2patterns.normalize_pattern",
+                  "v1patterns.compile_pattern", "v1patterns._compile_pattern_re",
                   "patterns.RE_PATTERN_ESCAPES", "v2version._format_segment"],
     "bounds": "literal text over printable ASCII without upper-case letters and bare brackets: every string of length 1..2 (quick) / 1..3 "
               "(thorough) for the homomorphism, every single character for the LITERAL audit (finite: enumeration, stated), "
@@ -33,6 +34,7 @@ def obligations(tier):
         base = {"engine": eng, "len": ln, "exclude": exclude}
         obs.append(Ob(f"L1.homomorphism[{eng}]", "c07.py", "homomorphism", base, timeout=t, bounds=f"len <= {ln}"))
         obs.append(Ob(f"L1.around_part[{eng}]", "c07.py", "around_part", base, timeout=t))
+        obs.append(Ob(f"L1.entry_homomorphism[{eng}]", "c07.py", "entry_homomorphism", base, timeout=t, bounds=f"len <= {ln}"))
         obs.append(Ob(f"L2.single_char_literal[{eng}]", "c07.py", "single_char_literal", base, timeout=t))
         if finding_open(KEY_ANCHOR):
             obs.append(Ob(f"L2.mid_anchor_literal[{eng}; known]", "c07.py", "mid_anchor_literal", {"engine": eng}, expect="known",
